@@ -260,6 +260,12 @@ ExS(x, st) ==
     [] x.k = "mcall" -> LET o == Eval(x.o, st.heap, st.loc)  vs == EvalSeq(x.args, st.heap, st.loc) IN
                        IF IsUndef(o) \/ o.s = "null" \/ (\E i \in 1..Len(vs) : IsUndef(vs[i])) THEN Comp("undef", Empty, st, "expr")
                        ELSE Comp("normal", Void, [st EXCEPT !.eff = Append(@, Eff("call", o.s, x.m, vs))], "expr")
+    [] x.k = "letc" -> \* let n = o.m(args): an invokable that returns a value (mock rule: twice(x) = 2 * x)
+                       LET o == Eval(x.o, st.heap, st.loc)  vs == EvalSeq(x.args, st.heap, st.loc) IN
+                       IF IsUndef(o) \/ o.s = "null" \/ (\E i \in 1..Len(vs) : IsUndef(vs[i])) \/ ~MulFits(2, vs[1].i)
+                       THEN Comp("undef", Empty, st, "decl")
+                       ELSE Comp("normal", Empty, [st EXCEPT !.loc = Append(@, <<x.n, VInt(2 * vs[1].i)>>),
+                                                             !.eff = Append(@, Eff("call", o.s, x.m, vs))], "decl")
     [] x.k = "log"  -> LET vs == EvalSeq(x.args, st.heap, st.loc) IN
                        IF \E i \in 1..Len(vs) : IsUndef(vs[i]) THEN Comp("undef", Empty, st, "expr")
                        ELSE Comp("normal", Void, [st EXCEPT !.eff = Append(@, Eff("log", "", x.lv, vs))], "expr")
